@@ -699,7 +699,8 @@ def iana_cases(ctx, n):
 
 LANG_POOL = ["English (en)", "French (fr)", "fr", "Español", "Deutsch (de)", "Bosnian (bos)", "en", "Acoli (ach)", "Klingon (tlh) "]
 BAD_SHEETS = ["setting", "Settings", "setings", "_settings", "entity", "entitie", "Entities", "ENTITIES", "choice", "survy",
-              "osm", "notes", "stings", "settingss", "settinsg", "sett", "entities2", "_entities", "SETTINGS", "external_choice"]
+              "osm", "notes", "stings", "settingss", "settinsg", "sett", "entities2", "_entities", "SETTINGS", "external_choice",
+              "SETTING", "Setingz", "STETINGS", "sEtTiNg", "ENTITIE", "Entitys", "eNtItIeZ", "SETINGS", "Sett1ngs"]
 
 
 def triggered_form(rng, big=False) -> dict:
